@@ -249,3 +249,86 @@ func verifC12Set(maxN int) {
 
 func VerifHarness_C12_Set_2() { verifC12Set(2) }
 func VerifHarness_C12_Set_3() { verifC12Set(3) }
+
+// C12-O3b: vector op vector over several steps of a range query: every step
+// joins only the series present on both sides AT THAT STEP (nothing is carried
+// over from an earlier step), and set operators likewise.
+func verifC12Steps(steps, maxN int) {
+	kind := vsymChoice("op", 4)
+	op := []logql.BinOp{logql.OpSub, logql.OpAnd, logql.OpOr, logql.OpUnless}[kind]
+	type side struct {
+		ss   []Sample
+		vals []float64
+		keys []uint64
+	}
+	var L, R []side
+	var lsteps, rsteps []Step
+	for s := 0; s < steps; s++ {
+		ls, lv, lk := verifSide("L", vsymChoice("nl", maxN+1))
+		rs, rv, rk := verifSide("R", vsymChoice("nr", maxN+1))
+		L = append(L, side{ls, lv, lk})
+		R = append(R, side{rs, rv, rk})
+		lsteps = append(lsteps, Step{Timestamp: otelstorageTS(100 + s), Samples: ls})
+		rsteps = append(rsteps, Step{Timestamp: otelstorageTS(100 + s), Samples: rs})
+	}
+	it, err := BinOp(iterators.Slice(lsteps), iterators.Slice(rsteps), &logql.BinOpExpr{Op: op})
+	vsymAssert(err == nil, "binary operation builds")
+	for s := 0; s < steps; s++ {
+		var st Step
+		vsymAssert(it.Next(&st), "one output step per input step")
+		vsymAssert(st.Timestamp == otelstorageTS(100+s), "steps stay aligned")
+		l, r := L[s], R[s]
+		has := func(keys []uint64, k uint64) int {
+			for j, x := range keys {
+				if x == k {
+					return j
+				}
+			}
+			return -1
+		}
+		want := 0
+		for i := range l.ss {
+			j := has(r.keys, l.keys[i])
+			switch kind {
+			case 0:
+				if j >= 0 {
+					want++
+				}
+			case 1:
+				if j >= 0 {
+					want++
+				}
+			case 2:
+				want++
+			default:
+				if j < 0 {
+					want++
+				}
+			}
+		}
+		if kind == 2 {
+			for j := range r.ss {
+				if has(l.keys, r.keys[j]) < 0 {
+					want++
+				}
+			}
+		}
+		vsymAssert(len(st.Samples) == want, "a step holds exactly the series the operator yields for THIS step's operands")
+		if kind == 0 {
+			for _, o := range st.Samples {
+				i := has(l.keys, o.Set.Key())
+				vsymAssert(i >= 0, "outputs carry the labels of a left series of this step")
+				j := has(r.keys, o.Set.Key())
+				vsymAssert(j >= 0, "an output exists only for label sets present on both sides at this step")
+				vsymAssert(vsymSameFloat(o.Data, l.vals[i]-r.vals[j]), "the value combines this step's left and right values")
+			}
+		}
+	}
+	var extra Step
+	vsymAssert(!it.Next(&extra), "no step beyond the input")
+	vsymReach("C12_steps")
+}
+
+func VerifHarness_C12_Steps_2x1() { verifC12Steps(2, 1) }
+func VerifHarness_C12_Steps_2x2() { verifC12Steps(2, 2) }
+func VerifHarness_C12_Steps_3x1() { verifC12Steps(3, 1) }
